@@ -1036,27 +1036,31 @@ def run(chk: Check) -> None:
     creds = [("user", "pass"), ("", ""), ("ü", "p:€"), ("a", ":"), ("\U0001f600", "x y"), (" ", " ")]
     for _ in range(n // 2):
         creds.append((gen_value(rng).replace(":", ";"), gen_value(rng)))
-    for u, pw in creds:
-        a = ds.Authorization("basic", {"username": u, "password": pw})
+    for i, (u, pw) in enumerate(creds):
+        bsp = ["basic", "Basic", "BASIC", "bAsIc"][i % 4]
+        a = ds.Authorization(bsp, {"username": u, "password": pw})
         C.add(f"basic {cps(u)} {cps(pw)}", lambda: cps(a.to_header()))
         try:
             b = T(lambda: ds.Authorization.from_header(a.to_header()))
-            ok = b is not None and b.type == "basic" and b.username == u and b.password == pw and b.token is None
+            ok = b is not None and b.type == "basic" and b.username == u and b.password == pw and b.token is None and b == a
         except Exception as ex:  # noqa: BLE001
             b, ok = repr(ex), False
         if not ok:
-            rt_fail("auth-basic-roundtrip", f"Authorization.from_header(to_header()) = {b!r}", {"username": u, "password": pw})
-    schemes = ["bearer", "negotiate", "x-custom", "a1", "digest", "token68"]
+            rt_fail("auth-basic-roundtrip", f"Authorization({bsp!r}, ...): from_header(to_header()) = {b!r}", {"scheme": bsp, "username": u, "password": pw})
+    # every spelling of a scheme: the type is lower-cased on construction, so from_header(to_header(v)) == v whatever the spelling
+    schemes = ["bearer", "negotiate", "x-custom", "a1", "digest", "token68", "Bearer", "BEARER", "Digest", "DIGEST", "Negotiate", "X-Custom", "bEaReR"]
     toks = ["abc", "a.b-c==", "", "dXNlcg==", "a/b+c", "é", "x y", "a=", "=", "==", "a~b_c"] + [_s(rng, TOK + "/=é", 0, 8).strip() for _ in range(n // 4)]
     for tok in toks:
         sch = rng.choice(schemes)
-        C.add(f"tokhdr {cps(sch)} {cps(tok)}", lambda: cps(ds.Authorization(sch, token=tok).to_header()))
+        C.add(f"tokhdr {cps(sch.lower())} {cps(tok)}", lambda: cps(ds.Authorization(sch, token=tok).to_header()))
+        C.add(f"tokhdr {cps(sch.lower())} {cps(tok)}", lambda: cps(ds.WWWAuthenticate(sch, token=tok).to_header()))
         if "=" in tok.rstrip("=") or tok != tok.strip():
             continue
         for cls in (ds.Authorization, ds.WWWAuthenticate):
             try:
-                b = T(lambda: cls.from_header(cls(sch, token=tok).to_header()))
-                ok = b is not None and b.type == sch and b.token == tok and not dict(b.parameters)
+                v0 = cls(sch, token=tok)
+                b = T(lambda: cls.from_header(v0.to_header()))
+                ok = b is not None and b.type == sch.lower() and b.token == tok and not dict(b.parameters) and b == v0
             except Exception as ex:  # noqa: BLE001
                 b, ok = repr(ex), False
             if not ok:
@@ -1067,19 +1071,20 @@ def run(chk: Check) -> None:
         C.add(f"title {cps(v)}", lambda: cps(v.title()))
     # parameter schemes (implementation-level oracle; Digest quoting rule included)
     for _ in range(n // 2):
-        sch = rng.choice(["digest", "x-custom", "negotiate"])
+        sch = rng.choice(["digest", "x-custom", "negotiate", "Digest", "DIGEST", "X-Custom", "Negotiate"])
         d = {}
         for _ in range(rng.randint(1, 4)):
             d[rng.choice(["realm", "nonce", "qop", "opaque", "domain", "algorithm", "stale"]) if rng.random() < 0.6 else gen_key(rng)] = gen_value(rng)
-        if sch == "digest":
+        if sch.lower() == "digest":
             C.add(f"digesthdr {fod(d)}", lambda: cps(ds.WWWAuthenticate(sch, dict(d)).to_header()))
         else:
-            C.add(f"paramhdr {cps(sch)} {fod(d)}", lambda: "ok " + cps(ds.WWWAuthenticate(sch, dict(d)).to_header()))
-            C.add(f"paramhdr {cps(sch)} {fod(d)}", lambda: "ok " + cps(ds.Authorization(sch, dict(d)).to_header()))
+            C.add(f"paramhdr {cps(sch.lower())} {fod(d)}", lambda: "ok " + cps(ds.WWWAuthenticate(sch, dict(d)).to_header()))
+            C.add(f"paramhdr {cps(sch.lower())} {fod(d)}", lambda: "ok " + cps(ds.Authorization(sch, dict(d)).to_header()))
         for cls in (ds.Authorization, ds.WWWAuthenticate):
             try:
-                b = T(lambda: cls.from_header(cls(sch, dict(d)).to_header()))
-                ok = b is not None and b.type == sch and dict(b.parameters) == d and b.token is None
+                v0 = cls(sch, dict(d))
+                b = T(lambda: cls.from_header(v0.to_header()))
+                ok = b is not None and b.type == sch.lower() and dict(b.parameters) == d and b.token is None and b == v0
             except Exception as ex:  # noqa: BLE001
                 b, ok = repr(ex), False
             if not ok:
